@@ -1644,11 +1644,15 @@ def _run_e2e(case, res, S):
             # output, then ask it for the build file only (nothing is compiled)
             cwd_ = bd
             proj.bump(os.path.join(src, st['touch']), bd)
-            before_ns = os.stat(environ_file).st_mtime_ns
+            # (witness that bfg9000 ran: the build file is rewritten - or, by a lazy
+            # regeneration that has nothing to do, touched; .bfg_environ itself is only
+            # rewritten when the configuration changed)
+            primary_file = os.path.join(bd, 'Makefile' if backend == 'make' else 'build.ninja')
+            before_ns = os.stat(primary_file).st_mtime_ns
             proj.settle()
         rc, out = core.run(st['argv'], cwd=cwd_, env=env_, timeout=120)
         if mode == 'lazy-backend':
-            ran = os.stat(environ_file).st_mtime_ns != before_ns
+            ran = os.stat(primary_file).st_mtime_ns != before_ns
             if rc != 0 and 'unable to reload environment' not in out:
                 # how the back end reads its own rule (spaces in srcdir, ...)
                 # is the business of C04/C08
